@@ -174,13 +174,13 @@ for fn, inl in (('CompressedLevel_size', []), ('CompressedLevel_get_intercept', 
       assumptions=['sdsl int_vector / select_1 are replaced by assumed contracts [A]', 'WF_compressed (slopes_map cells index the slopes table, select defined for 1..size) is a precondition'])
 
 
-U('compressed_search', fam_compressed, 'Compressed_search', ['CXX_not_registered_yet'], assumed=['CompressedLevel_call', 'CompressedLevel_get_intercept', 'CompressedLevel_size'],
+U('compressed_search', fam_compressed, 'Compressed_search', ['C08', 'C16', 'C17'], assumed=['CompressedLevel_call', 'CompressedLevel_get_intercept', 'CompressedLevel_size'],
   decls=['compressed_ghost', 'compressed_search_ghost', 'std_bounds_K'], lemmas=['lemma_clevel', 'lemma_clevel_sorted', 'lemma_cresp', 'lemma_root_acc', 'pgmv_upper_bound_K'],
-  macros=fam_compressed.MACROS, insts=CP_Q, spec=('compressed.spec', 'mapped.spec'), defines=['PGMV_F2I_STRICT'], drop_checks=['--conversion-check'],
-  cases=[('PGMV_CASE', '0'), ('PGMV_CASE', '1'), ('PGMV_CASE', '2')], timeout=1500, partition=16, mem_gb=10,
+  macros=fam_compressed.MACROS, insts=CP_Q[:1], thorough_insts=CP_Q, spec=('compressed.spec', 'mapped.spec'), defines=['PGMV_F2I_STRICT', 'CLMAX=8'], drop_checks=['--conversion-check'],
+  cases=[('PGMV_CASE', '0'), ('PGMV_CASE', '1'), ('PGMV_CASE', '2')], timeout=1500, partition=16, mem_gb=10, thorough_only_props=['C16', 'C17'],
   assumptions=[ACC_NOTE, 'WF_compressed per level (keys strictly increasing, first key = first_key, sentinel last, responsible segment exists) through lemma contracts [B: established by the constructor, bounded link]',
                'ACC of the root line is an assumed lemma on the computed value (the floating-point evaluation itself is only checked for undefined conversions)',
-               'the key arrays of the levels are modelled inside one pool object (possibly overlapping): sound for read-only code; the empty assigns clause proves search writes nothing',
+               'at most 8 levels below the root, each with its own fresh key array (enumerated in the precondition: a bound on the height of the index, not on n, the level sizes or the epsilons)',
                'the responsible segment of the current level is re-derived by lemma + assume at the head of the level loop body (loop invariants cannot call lemma functions)'])
 
 # ---------------------------------------------------------------------------------------------------
